@@ -50,7 +50,7 @@ static const char *menu_win[] = {
 #define AR2 "\330\270\330\271\330\272\331\201\331\202\331\203\331\204\331\205\331\206\331\207\331\210\331\211\331\212\330\242\330\243\330\244"
 static struct vt A, B;
 static char want[ROWS][COLS + 2];
-static int wrow, wcol, nwant;
+static int wrow, wcol, nwant, skip[ROWS];
 static void snap(int k)
 {
 	int r, i;
@@ -70,6 +70,11 @@ static void snap(int k)
 		}
 		if ((unsigned char) ln[0] >= 0x80) {	/* a line of two-byte right-to-left letters: character p is in column cols-1-(p-xleft) */
 			int nch = (int) (strlen(ln) - 1) / 2;
+			for (i = 0; ln[i] && ln[i] != '\n'; i++)
+				if ((unsigned char) ln[i] < 0x80)
+					skip[r] = 1;	/* a Latin character was put into the line: mixed directions are outside the cell oracle */
+			if (skip[r])
+				continue;
 			for (i = 0; i < COLS; i++) {
 				int p = xleft + COLS - 1 - i;
 				if (p >= 0 && p < nch)
@@ -144,12 +149,14 @@ void harness(void)
 		wbeg = ROWS / 2;		/* the lower window of a split screen */
 	for (r = 0; r < nwant && wbeg + r < ROWS; r++) {
 		symx_assert(!memcmp(A.cell[wbeg + r], B.cell[wbeg + r], COLS), "incremental update == full repaint (no stale or missing row)");
-		symx_assert(!memcmp(A.cell[wbeg + r], want[r], COLS), "every row shows its buffer line, clipped to the window");
+		if (!skip[r])
+			symx_assert(!memcmp(A.cell[wbeg + r], want[r], COLS), "every row shows its buffer line, clipped to the window");
 	}
 	symx_assert(A.r == B.r && A.c == B.c, "the terminal cursor is where a full repaint puts it");
 	symx_assert(wrow >= 0 && wrow < nwant, "the window contains the cursor line");
 	symx_assert(A.r == wbeg + wrow, "the terminal cursor is on the row of the current line");
-	symx_assert(A.c == (wcol < 0 ? 0 : wcol), "the terminal cursor is on the cell of the current character");
+	if (!(wrow >= 0 && wrow < ROWS && skip[wrow]))
+		symx_assert(A.c == (wcol < 0 ? 0 : wcol), "the terminal cursor is on the cell of the current character");
 	symx_observe("row", A.r);
 	symx_observe("col", A.c);
 	symx_observe_mem("row0", A.cell[0], COLS);
